@@ -4,13 +4,14 @@ import Comdex.Base.Dec
 
 Sources (read-only tree /repo):
 * generation 1 `x/liquidation`: `keeper/liquidate_vaults.go:15-104` (sweep), `:106-137` (CreateLockedVault),
-  `keeper/msg_server.go:25-91` (MsgLiquidateVault), `keeper/liquidate_borrow.go:14-163` (borrow sweep: decision and
-  offset bookkeeping only), `types/liquidations.go:21-31` (GetSliceStartEndForLiquidations), `abci.go`;
-  auction start `x/auction/keeper/dutch.go:22-162`.
+  `keeper/msg_server.go:25-91` (MsgLiquidateVault), `:92-199` (MsgLiquidateBorrow), `keeper/liquidate_borrow.go:14-163` (borrow
+  sweep, complete), `:166-198` (CreateLockedBorrow), `:200-352` (UpdateLockedBorrows), `types/liquidations.go:21-31`
+  (GetSliceStartEndForLiquidations), `abci.go`; auction starts `x/auction/keeper/dutch.go:22-162`, `dutch_lend.go:18-133`.
 * generation 2 `x/liquidationsV2`: `keeper/liquidate.go:15-32` (Liquidate), `:37-82` (vault sweep), `:84-167`
-  (LiquidateIndividualVault), `:174-228` (CreateLockedVault), `:237-263` (borrow sweep), `:265-356` (borrow decision),
-  `:358-404` (UpdateLockedBorrows), `:406-420` (MsgLiquidate), `types/offset.go:19-29`, `keeper/offset.go`;
-  auction start `x/auctionsV2/keeper/auctions.go:16-102`.
+  (LiquidateIndividualVault), `:174-228` (CreateLockedVault, incl. the English branch), `:237-263` (borrow sweep), `:265-356`
+  (borrow decision), `:358-404` (UpdateLockedBorrows), `:406-420` (MsgLiquidate), `:549-601` (MsgAppReserveFundsFn), `:681-720`
+  (MsgLiquidateExternal), `types/params.go:55-66` (batch-size validator), `types/offset.go:19-29`, `keeper/offset.go`;
+  auction start `x/auctionsV2/keeper/auctions.go:16-140` (Dutch and English activators).
 * `x/vault/keeper/vault.go:300-373` CalculateCollateralizationRatio, `x/market/keeper/oracle.go:167-179` CalcAssetPrice,
   `x/lend/keeper/rates.go:30-47`, `types/utils.go:246-264` ApplyFuncIfNoError.
 
